@@ -21,6 +21,74 @@ def witness_u3(v, tier):
     return {'found': False, 'tried': (out or {}).get('tried'), 'note': err}
 
 
+def witness_u1(v, tier):
+    out, err = _replay(['u1', 'find'] + (['thorough'] if tier == 'thorough' else []), timeout=1800)
+    if out and out.get('found'):
+        w = out['witness']
+        return {'found': True, 'witness': w, 'real': out['real'], 'tried': out['tried'],
+                'replay_args': ['u1', 'replay', json.dumps(w)]}
+    return {'found': False, 'tried': (out or {}).get('tried'), 'note': err}
+
+
+def extra_c02_frame(prop, tier, seed):
+    """Frame obligation for the second sentence of C02: in every variant of validate_cbor_from_slice the
+    encoded bytes are used exactly once, as the argument of decode_cbor, so the validator sees nothing
+    but the decoded Value.  Decided by a token scan of the working tree (syntactic, complete)."""
+    from . import rtok
+    rel = 'src/validator/mod.rs'
+    src = open(os.path.join(engine.REPO, rel), encoding='utf-8').read()
+    toks = rtok.tokenize(src)
+    ks = rtok.find_fns(toks, 'validate_cbor_from_slice')
+    if not ks:
+        raise engine.Undecided('anchor-lost', 'validate_cbor_from_slice not found in %s' % rel)
+    checked = []
+    for k in ks:
+        s0, ob, cb = rtok.fn_extent(toks, k)
+        params = [t for t in toks[k:ob] if t.kind == 'ident' and t.text == 'cbor_slice']
+        uses = [i for i in range(ob, cb) if toks[i].kind == 'ident' and toks[i].text == 'cbor_slice']
+        ok = len(params) == 1 and len(uses) == 1 and toks[uses[0] - 1].text == '(' \
+            and toks[uses[0] - 2].text == 'decode_cbor' and toks[uses[0] + 1].text == ')'
+        checked.append('%s:%d' % (rel, toks[k].line))
+        if not ok:
+            raise engine.Undecided('frame-lost', 'validate_cbor_from_slice at %s:%d uses the encoded bytes `cbor_slice` '
+                                   'other than as decode_cbor(cbor_slice): the validator may now observe the encoding; '
+                                   'the encoding-independence argument no longer applies' % (rel, toks[k].line))
+    return {'notes': ['frame: cbor_slice flows only into decode_cbor in %d variants of validate_cbor_from_slice (%s)'
+                      % (len(ks), ', '.join(checked))],
+            'obligations': len(ks), 'discharged': len(ks),
+            'samples': [{'unit': 'frame', 'obligation': 'validate_cbor_from_slice:bytes-flow-only-into-decode_cbor',
+                         'clause': 'the identifier cbor_slice occurs exactly once in the body, as decode_cbor(cbor_slice)'}],
+            'cmds': ['token scan of %s (vx/props.py extra_c02_frame)' % rel]}
+
+
+def witness_c05(v, tier):
+    """Allocation obligations: look for an input whose announced length makes the real decoder
+    abort (run in a subprocess under a 4 GiB address-space limit)."""
+    import resource
+    import subprocess
+    from . import check
+    if not v['label'].startswith('alloc:'):
+        return witness_u1(v, tier)
+    exe = check.build_replay()
+    tried = 0
+    for mt in (2, 3, 4, 5):
+        for tail in ('1b0000001000000000', '1b00000000ffffffff', '1affffffff', '1b7fffffffffffffff', '1bffffffffffffffff'):
+            hx = '%02x%s' % ((mt << 5) | int(tail[:2], 16) & 31, tail[2:])
+            for prefix in ('', '81', 'd8 2a'.replace(' ', '')):
+                inp = prefix + hx
+                tried += 1
+
+                def lim():
+                    resource.setrlimit(resource.RLIMIT_AS, (4 << 30, 4 << 30))
+                r = subprocess.run([exe, 'u1', 'raw', inp], stdout=subprocess.PIPE, stderr=subprocess.PIPE, text=True,
+                                   preexec_fn=lim, timeout=120)
+                if r.returncode < 0 or 'memory allocation' in r.stderr or 'capacity overflow' in r.stderr:
+                    return {'found': True, 'witness': {'input_hex': inp}, 'tried': tried,
+                            'real': 'decoder process died (rc=%d): %s' % (r.returncode, r.stderr.strip()[-200:]),
+                            'replay_args': ['u1', 'raw', inp]}
+    return {'found': False, 'tried': tried}
+
+
 def witness_u2(v, tier):
     out, err = _replay(['u2', 'find'])
     if out and out.get('found'):
@@ -169,6 +237,55 @@ def extra_c20(prop, tier, seed):
 
 
 PROPS = {
+    'C09': {
+        'vx': ['U5'],
+        'technique': 'Verus postconditions on mechanically extracted fragments (R7) of the real array matchers over the real cddl::ast::Occur + identity lemma',
+        'level_text': 'Occurrence identities only: the statement that turns an occurrence indicator into (min, max) iteration bounds inside seq_match_entry - in the JSON and in the CBOR validator - is proved equal to one spec function occ_bounds over the REAL cddl::ast::Occur type, and a lemma shows ? = 0*1, * = 0* (= *), + = 1*, *m = 0*m on that spec; a token-level frame obligation shows the occurrence value is not read again after that statement, so the rest of the matcher depends on it only through (min, max). Operator identities (/, .and, .within, .eq/.ne, ranges) and prelude-name identities live inside the visitors and are not decided.',
+        'level_note': 'Trusted: Verus+Z3; rustc agreement between the fragment and the enclosing function (R7 wraps the statement in a generated fn, nothing inside changes). Unverified: the greedy loop and seq_match_entry_once, map-group occurrence handling (validate_repeating_member_count etc.), every other identity named in C09.',
+        'design_ref': 'DESIGN.md 4 U5',
+        'scope': 'occurrence -> (min,max) in seq_match_entry (json.rs, cbor.rs)',
+        'assumptions': [],
+    },
+    'C04': {
+        'vx': ['U5'],
+        'technique': 'mirror lemma: the JSON and the CBOR copy of a duplicated pure helper meet the same Verus spec',
+        'level_text': 'Mirror obligations only: the duplicated occurrence->(min,max) statement of the array matcher in json.rs and in cbor.rs are both proved equal to the same spec function, hence to each other, for every occurrence value. Agreement of the two validators verdicts is not decided (relational property over two 4-6 kLoC visitors).',
+        'level_note': 'Trusted: as for C09. Everything else in the two validators is unverified.',
+        'design_ref': 'DESIGN.md 4 U5',
+        'scope': 'duplicated pure helper of the array matcher',
+        'assumptions': [],
+    },
+    'C02': {
+        'vx': ['U1'],
+        'extra': [extra_c02_frame],
+        'witness': witness_u1,
+        'technique': 'lemma over the decoder contract (Verus, unit U1) + syntactic frame obligation on validate_cbor_from_slice',
+        'level_text': 'Second sentence of C02 only (the verdict cannot depend on the encoding): U1 proves that decode_cbor returns a Value that represents the data-model Item of the input - an abstraction that by construction carries no head width, definite/indefinite framing, chunking or float width - and a token-level frame obligation shows the encoded bytes flow only into decode_cbor in every variant of validate_cbor_from_slice, so the validator is a function of that Value alone. The first sentence (verdict = RFC 8610 semantics) is not decided: the CBOR validator is outside both verifiers reach.',
+        'level_note': 'Trusted: everything listed for C11. The step "two Values representing the same Item are indistinguishable to the validator" relies on Value equality being by content (Integer by value, Text/Bytes by bytes, floats by f64 value), which is how the type is defined; the validator itself is not under contract.',
+        'design_ref': 'DESIGN.md 4 U1 (C02b)',
+        'scope': 'encoding independence of the CBOR verdict, via decode_cbor',
+        'assumptions': ['CBORValidator::new / validate are deterministic functions of (schema, Value, features) - not verified'],
+    },
+    'C05': {
+        'vx': ['U1', 'U3'],
+        'witness': witness_c05,
+        'technique': 'Verus: allocation-size obligations injected at every allocation site found by token scan, decreases clauses, overflow / index / unwrap / library-precondition obligations on every function under contract',
+        'level_text': 'Partial: for the functions under contract - the seven CBOR decoder functions and the three parse-error range functions - Verus proves (a) every allocation whose size is a run-time value requests at most a constant (the "length in a CBOR head is never trusted for allocation" clause; sites re-discovered on every run), (b) termination of every loop and of the mutual recursion, (c) absence of arithmetic overflow, out-of-bounds indexing, failing unwrap and violated library preconditions (e.g. ciborium push() with a header already buffered, read_exact with a buffered header - both panic). Found and fixed: allocation of 2 TiB from 9b 00 00 00 10 00 00 00 00 (F3). NOT decided: polynomial time, stack depth (recursion on nesting), the pest parser, the validators, Display, alias-cycle recursion in validator/mod.rs and control.rs.',
+        'level_note': 'Trusted: as for C11 and C15. Only functions under contract are covered; C05 as stated quantifies over every entry point, most of which are outside the verifiers reach (see DESIGN.md 5).',
+        'design_ref': 'DESIGN.md 4 U1/U3',
+        'scope': 'panic/abort/termination obligations of the functions under contract in U1 and U3',
+        'assumptions': [],
+    },
+    'C11': {
+        'vx': ['U1'],
+        'witness': witness_u1,
+        'technique': 'Verus function contracts + loop invariants + unfolding lemmas on the real decoder functions (mechanical extraction, real ciborium types), against an RFC 8949 spec function; assumed contract for ciborium-ll Decoder',
+        'level_text': 'Deductive proof (Verus/Z3, no bound on input length, nesting or loop iterations) that decode_cbor returns Ok exactly when the input begins with a well-formed RFC 8949 item whose text strings are valid UTF-8 (truncation, reserved additional information 28-30, 31 on major types 0/1/6, stray break, wrong-type or indefinite chunks => Err) and that the returned Value is the item data-model value (full 64-bit uint/nint range, floats as delivered by the head, tags, simple values, concatenated chunks, arrays/maps in encoded order with duplicates kept). All seven functions decode_cbor, decode_value, read_exact_len, read_bytes, read_text, decode_array, decode_map are under contract; termination is proved. One RFC rule (two-byte simple values < 32 are not well-formed) is not implemented by the crate: known finding F2; the proof is against the spec with exactly that rule removed and the strict clause is kept as a failing, labelled obligation.',
+        'level_note': 'Trusted: Verus+Z3; vstd specs of Vec/String/Box; ASSUMED contracts (listed in evidence.trusted_base): ciborium-ll Decoder::pull/push/offset/read_exact over an in-memory byte source (pull = RFC head parse mapped to Header), Decoder::from, Cursor::new, Header == Break, ciborium Integer::from(u64/i64)/try_from(i128), String::from_utf8 (Ok <=> valid UTF-8), UTF-8 encoding distributes over concatenation, 64-bit usize, half/f32->f64 widening inside pull (uninterpreted). Extraction rewrites R1 (closure/for `_` names), R2 (map_err inlined to match), R3, R4 (simple::* constants re-declared and pinned by static assertions). Stack depth of the recursion is not modelled.',
+        'design_ref': 'DESIGN.md 4 U1',
+        'scope': 'decode_cbor and the six functions below it in src/validator/cbor_value.rs',
+        'assumptions': ['the reader behind the Decoder is an in-memory byte source (std::io::Cursor<&[u8]>, the only instantiation in the crate)'],
+    },
     'C03': {
         'extra': [kani_c03, extra_c03_parser],
         'witness': witness_u10,
@@ -221,12 +338,7 @@ PROPS = {
 
 # properties whose check is not built yet (kept in MANIFEST.not_applicable until it is)
 PENDING = {
-    'C02': 'check not built yet: planned as lemma over the decoder contract (unit U1)',
-    'C04': 'check not built yet: planned mirror lemmas for duplicated pure helpers (unit U5)',
-    'C05': 'check not built yet: planned allocation/termination/panic obligations (units U1,U2,U3,U6)',
-    'C09': 'check not built yet: planned occurrence/prelude identities (unit U5)',
     'C10': 'check not built yet: planned claim-ledger/matching contracts (unit U6)',
-    'C11': 'check not built yet: planned decoder proof (unit U1)',
     'C12': 'check not built yet: stretch unit U4',
     'C14': 'check not built yet: stretch unit U8',
 }
